@@ -212,11 +212,17 @@ func c16Exec(c *core.Ctx, cs c16Case) {
 	if c16Scratch == "" {
 		c16Scratch = c.ScratchDir("c16")
 	}
-	root, err := os.MkdirTemp(c16Scratch, "t")
+	top, err := os.MkdirTemp(c16Scratch, "t")
 	if err != nil {
 		panic(err)
 	}
-	defer os.RemoveAll(root)
+	defer os.RemoveAll(top)
+	// the tree sits a few levels below a private directory, so that patterns
+	// climbing through ".." stay inside a quiescent part of the file system
+	root := filepath.Join(top, "l1", "l2", "l3", "l4", "l5")
+	if err := os.MkdirAll(root, 0o755); err != nil {
+		panic(err)
+	}
 	if err := c16Build(root, cs.Tree); err != nil {
 		c.Inconclusive("cannot build tree: " + err.Error())
 		return
